@@ -678,6 +678,143 @@ def c19(ctx):
     ctx.cov["samples"] = [{"kind": c["kind"], "cond": c["cond"], "program": c["desc"][:300]} for c in cases[:3]]
 
 
+# ------------------------------------------------------------------------------------ C09
+
+def parse_sexp(text):
+    """Nested lists / atoms from the dump text."""
+    toks = text.replace("(", " ( ").replace(")", " ) ").split()
+    pos = 0
+
+    def item():
+        nonlocal pos
+        t = toks[pos]
+        pos += 1
+        if t != "(":
+            return t
+        out = []
+        while toks[pos] != ")":
+            out.append(item())
+        pos += 1
+        return out
+    return item()
+
+
+HANDLE_STRUCTS = {"IdentExp", "FuncBuilder", "AggExpBuilder", "CaseExp", "funcExp"}
+
+
+def collect_names(node, names, types, info):
+    """Independent traversal of the composed value: every N(...) and Cast(...) string, except inside
+    the self handles (copies of the value itself)."""
+    if not isinstance(node, list) or not node:
+        return
+    head = node[0]
+    if head == "IdentExp":
+        names.append(bytes.fromhex(node[2][1:]))
+        return
+    if head == "expType":
+        types.append(bytes.fromhex(node[1][1:]))
+        return
+    if head == "selectCombination":
+        parts = node[1]
+        # selectQueryParts: ... orderBys(11) limit(12) offset(13)
+        if parts[11] != "nil" and parts[11] != ["list"] or parts[12] != "nil" or parts[13] != "nil":
+            info["branch_tail"] = True
+    if head == "InsertBuilder":
+        if node[6] != "nil" and node[7] != "nil":
+            info["abort"] = True
+        if node[10] != "s" and node[8] not in ("nil", ["list"]) and node[11] != "s":
+            info["abort"] = True
+    if head == "fromItem" and node[1] == "T" and node[2] == "T":
+        info["abort"] = True
+    if head == "FuncBuilder" and node[4] == "T" and node[6] not in ("nil", ["list"]):
+        info["abort"] = True
+    start = 2 if head in HANDLE_STRUCTS else 1
+    for child in node[start:]:
+        collect_names(child, names, types, info)
+
+
+@check("C09")
+def c09(ctx):
+    props.check_props_file(ctx, "Props/C09.v")
+    n = 3000 if ctx.quick() else 100000
+    cases = harness_cases(ctx, n, depth=6 if ctx.quick() else 8, hostile=0.22)
+    distribution(ctx, cases)
+    correspondence(ctx, cases)
+    # validity of every distinct name / type by the model's matcher (tied to regexp by the C07/C08 checks)
+    per_case = []
+    all_names, all_types = set(), set()
+    for c in cases:
+        names, types, info = [], [], {}
+        collect_names(parse_sexp(c["dump"]), names, types, info)
+        per_case.append((names, types, info))
+        all_names.update(names)
+        all_types.update(types)
+    ln, lt = sorted(all_names), sorted(all_types)
+    va = corr.model_answers([f"(validident s{x.hex()})" for x in ln] + [f"(validtype s{x.hex()})" for x in lt])
+    valid_n = {x: a == "T" for x, a in zip(ln, va[:len(ln)])}
+    valid_t = {x: a == "T" for x, a in zip(lt, va[len(ln):])}
+    ev = nontriv = 0
+    known = {}
+    offenders_hist = Counter()
+    seen = set()
+    for c, (names, types, info) in zip(cases, per_case):
+        r = c["renders"][0]          # validation on, plain
+        if r.get("panic") or r.get("missing"):
+            continue
+        ev += 1
+        bad_n = [x for x in names if not valid_n[x]]
+        bad_t = [x for x in types if not valid_t[x]]
+        offenders_hist[min(len(bad_n) + len(bad_t), 7)] += 1
+        msg = bytes.fromhex(r["err"]) if r["err"] else b""
+        rep = {"prog": c["prog"], "offending_names": [x.decode("utf8", "replace") for x in bad_n],
+               "offending_types": [x.decode("utf8", "replace") for x in bad_t],
+               "err": msg.decode("utf8", "replace"), "sql": bytes.fromhex(r["sql"]).decode("utf8", "replace")}
+        problems = []
+        if (r["err"] is None) and (bad_n or bad_t):
+            problems.append("rendering succeeded although a name or type is invalid")
+        n_id = msg.count(b"identifier: invalid: ")
+        n_ty = msg.count(b"type: invalid: ")
+        if n_id != len(bad_n) or n_ty != len(bad_t):
+            problems.append(f"{len(bad_n)} invalid names / {len(bad_t)} invalid types composed, "
+                            f"{n_id} / {n_ty} reported")
+        for x in set(bad_n):
+            if b"identifier: invalid: " + x not in msg:
+                problems.append("an offending name is not reported")
+        for x in set(bad_t):
+            if b"type: invalid: " + x not in msg:
+                problems.append("an offending type is not reported")
+        if bad_n and "ErrInvalidIdentifier" not in (r.get("err_is") or []):
+            problems.append("errors.Is(err, ErrInvalidIdentifier) is false")
+        if bad_t and "ErrInvalidType" not in (r.get("err_is") or []):
+            problems.append("errors.Is(err, ErrInvalidType) is false")
+        if problems:
+            if info.get("branch_tail"):
+                known.setdefault("D5-setop-branch-tail", rep)
+            elif info.get("abort"):
+                known.setdefault("D10-offender-after-structural-abort", rep)
+            else:
+                ctx.violation("; ".join(sorted(set(problems))), rep)
+        elif (bad_n or bad_t) and c["dump"] not in seen:
+            seen.add(c["dump"])
+            nontriv += 1
+    listed = {k["id"] for k in known_for("C09")}
+    for kid, rep in known.items():
+        if kid in listed:
+            ctx.known.append(f"{kid} e.g. {rep['prog'][:200]}")
+        else:
+            ctx.violation(f"offenders not reported ({kid})", rep)
+    ctx.cov["evaluations"] = ev
+    ctx.cov["distinct_nontrivial"] = nontriv
+    ctx.cov["input_distribution"]["simultaneous_offenders"] = {str(k): v for k, v in sorted(offenders_hist.items())}
+    ctx.cov["rule"] = ("mixed structured / type-directed statements with 22% hostile names and cast types at every position "
+                       "class; the offenders are collected by an independent traversal of the dumped value (every IdentExp / "
+                       "expType outside self handles) and compared with the reported errors (count, text, errors.Is); "
+                       "non-trivial = distinct value with at least one offender that is reported correctly")
+    ctx.cov["samples"] = samples(cases)
+    ctx.assumptions.append("partial: that the names visited by the rendering (idents (compile e)) are all names of the value is "
+                           "checked by the independent traversal on every generated value, not yet proved in Coq")
+
+
 # ------------------------------------------------------------------------------------ C14
 
 VALIDATION_PREFIXES = ("identifier: invalid", "type: invalid", "case: no conditions given")
